@@ -424,7 +424,16 @@ def run_loading(tier, rng, viol, stats, samples):
         app_id = rng.choice((1, 66, 255))
         bad = None
         try:
-            mc.load_routing_tables(tables, app_id=app_id)
+            # (the chip of each table comes from the dictionary, the application from the call or an enclosing block: a block
+            #  naming another chip / application must not redirect anything)
+            if k % 3 == 1:
+                with mc(x=chips[k % len(chips)][0], y=chips[k % len(chips)][1], app_id=(app_id + 1) % 256):
+                    mc.load_routing_tables(tables, app_id=app_id)
+            elif k % 3 == 2:
+                with mc(app_id=app_id, x=chips[-1][0], y=chips[-1][1]):
+                    mc.load_routing_tables(tables)
+            else:
+                mc.load_routing_tables(tables, app_id=app_id)
             raised = None
         except SpiNNakerRouterError as e:
             raised = e
